@@ -181,11 +181,16 @@ structure Sim (cs : SpaceMap) (st : IState) (ss : SState) : Prop where
   out : (st.out.filter hasSeg).map eraseRectPts = ss.out.map eraseRectPts
   csmap : st.csmap = cs
 
-/-- Operations the proved simulation covers: no pattern colour (open finding), and `sc`-family
-operand counts 1, 3 or 4 (pdfminer ignores other counts). -/
-def supported : SOp → Bool
-  | .sc _ _ xs pat => pat.isNone && (xs.length == 1 || xs.length == 3 || xs.length == 4)
+/-- Operations the proved simulation covers: no `sc`-family operator while a Pattern colour space is
+current (open finding `pattern-colour-not-recorded`). -/
+def supOk (ss : SState) : SOp → Bool
+  | .sc _ stroking xs pat =>
+    !(if stroking then ss.g.sspace else ss.g.nspace).pattern
   | _ => true
+
+def supported (cs : SpaceMap) : List SOp → SState → Bool
+  | [], _ => true
+  | op :: rest, st => supOk st op && supported cs rest (stepS cs st op)
 
 theorem nums_eq (xs : List Rat) : nums xs = (xs.map Operand.num).map Tok.operand := by
   simp [nums, List.map_map, Function.comp_def]
@@ -504,81 +509,166 @@ theorem sim_cs (cs : SpaceMap) (st : IState) (ss : SState) (hs : Sim cs st ss) (
               gstack := hs.gstack, path := hs.path, ok := hs.ok, out := hs.out, csmap := hs.csmap }
 
 theorem setColourN_ok (st : IState) (b : Bool) (xs : List Rat)
-    (hn : (if b then st.gs.scs else st.gs.ncs) = xs.length)
-    (hlen : xs.length = 1 ∨ xs.length = 3 ∨ xs.length = 4) :
+    (hn : (if b then st.gs.scs else st.gs.ncs) = xs.length) (hlen : xs.length ≠ 0) :
     doSetColourN { st with argstack := st.argstack ++ xs.map Operand.num } b = .ok (setColour st b xs) := by
   have hl : (xs.map Operand.num).length = xs.length := by simp
   unfold doSetColourN
   simp only [hn]
-  rcases hlen with h1 | h3 | h4
+  by_cases h1 : xs.length = 1
   · have hp := pop_append 1 st (xs.map Operand.num) (by decide) (by rw [hl, h1])
     match xs, h1 with
     | [x], _ =>
       simp only [List.length_singleton, if_true]
       rw [hp]
       simp [safeFloat]
-  · have hp := pop_append xs.length st (xs.map Operand.num) (by omega) hl
-    have h31 : ¬ xs.length = 1 := by omega
-    simp only [h31, if_false, h3, true_or, if_true]
-    rw [h3] at hp
+  · have hp := pop_append xs.length st (xs.map Operand.num) hlen hl
+    simp only [h1, hlen, if_false]
     rw [hp]
-    simp [allNums_nums, h3]
-  · have hp := pop_append xs.length st (xs.map Operand.num) (by omega) hl
-    have h41 : ¬ xs.length = 1 := by omega
-    simp only [h41, if_false, h4, or_true, if_true]
-    rw [h4] at hp
+    simp [allNums_nums]
+
+theorem setColourN_ignored (st : IState) (b : Bool) (args : List Operand)
+    (hn : (if b then st.gs.scs else st.gs.ncs) = args.length)
+    (hlen : args.length ≠ 0) (hbad : allNums args = none) :
+    doSetColourN { st with argstack := st.argstack ++ args } b = .ok st := by
+  unfold doSetColourN
+  simp only [hn]
+  by_cases h1 : args.length = 1
+  · have hp := pop_append 1 st args (by decide) h1
+    match args, h1, hbad with
+    | [x], _, hbad =>
+      simp only [List.length_singleton, if_true]
+      rw [hp]
+      have : safeFloat x = none := by
+        cases hx : safeFloat x with
+        | none => rfl
+        | some r => simp [allNums, hx] at hbad
+      simp [this]
+  · have hp := pop_append args.length st args hlen rfl
+    simp only [h1, hlen, if_false]
     rw [hp]
-    simp [allNums_nums, h4]
+    simp [hbad]
+
+theorem scKey (k : OpK) (b : Bool) (hk : [OpK.sc, .scn, .SC, .SCN].contains k = true)
+    (hb : b = (k == .SC || k == .SCN)) (st : IState) :
+    doOp k st = doSetColourN st b := by
+  have hk4 : k = .sc ∨ k = .scn ∨ k = .SC ∨ k = .SCN := by
+    have := List.contains_iff_mem.1 hk
+    simpa using this
+  rcases hk4 with rfl | rfl | rfl | rfl
+  · have hb' : b = false := by rw [hb]; decide
+    subst hb'; rw [doOp_call0 .sc (by decide)]; rfl
+  · have hb' : b = false := by rw [hb]; decide
+    subst hb'; rw [doOp_call0 .scn (by decide)]; rfl
+  · have hb' : b = true := by rw [hb]; decide
+    subst hb'; rw [doOp_call0 .SC (by decide)]; rfl
+  · have hb' : b = true := by rw [hb]; decide
+    subst hb'; rw [doOp_call0 .SCN (by decide)]; rfl
+
+theorem allNums_snoc_name (xs : List Rat) (p : String) :
+    allNums (xs.map Operand.num ++ [Operand.name p]) = none := by
+  induction xs with
+  | nil => rfl
+  | cons x rest ih =>
+    simp only [allNums, List.map_cons, List.cons_append, List.mapM_cons, safeFloat] at ih ⊢
+    rw [ih]; rfl
 
 theorem sim_sc (cs : SpaceMap) (st : IState) (ss : SState) (hs : Sim cs st ss) (k : OpK) (b : Bool)
     (xs : List Rat) (pat : Option String) (hok : opOk cs ss (.sc k b xs pat) = true)
-    (hsup : supported (.sc k b xs pat) = true) :
+    (hsup : supOk ss (.sc k b xs pat) = true) :
     ∃ st', execute (tokens (.sc k b xs pat)) st = .ok st' ∧ Sim cs st' (stepS cs ss (.sc k b xs pat)) := by
-  simp only [supported, Bool.and_eq_true, Option.isNone_iff_eq_none, Bool.or_eq_true, beq_iff_eq] at hsup
-  obtain ⟨rfl, hlen⟩ := hsup
+  have hnp : (if b then ss.g.sspace else ss.g.nspace).pattern = false := by
+    simpa [supOk] using hsup
   simp only [opOk, Bool.and_eq_true, beq_iff_eq] at hok
   obtain ⟨⟨hk, hb⟩, hsc⟩ := hok
-  have hsp : (if b then ss.g.sspace else ss.g.nspace).pattern = false ∧
-      xs.length = (if b then ss.g.sspace else ss.g.nspace).n := by
-    generalize (if b then ss.g.sspace else ss.g.nspace) = sp at hsc ⊢
-    by_cases hp : sp.pattern = true
-    · simp [scOk, hp] at hsc
-    · simp only [scOk, hp, Bool.false_eq_true, if_false, Option.isNone_none, Bool.true_and, beq_iff_eq] at hsc
-      exact ⟨by simpa using hp, hsc⟩
-  have hn : (if b then st.gs.scs else st.gs.ncs) = xs.length := by
-    rw [hs.gs, hsp.2]; cases b <;> simp [gsOf]
-  have hlen' : xs.length = 1 ∨ xs.length = 3 ∨ xs.length = 4 := by
-    rcases hlen with (h | h) | h <;> simp [h]
-  refine ⟨setColour st b xs, ?_, ?_⟩
-  · have : tokens (.sc k b xs none) = (xs.map Operand.num).map Tok.operand ++ [.op k] := by
-      simp [tokens, nums_eq]
-    rw [this, exec_operands, exec_single]
-    have hcall := setColourN_ok st b xs hn hlen'
-    have hk4 : k = .sc ∨ k = .scn ∨ k = .SC ∨ k = .SCN := by
-      have := List.contains_iff_mem.1 hk
-      simpa using this
-    rcases hk4 with rfl | rfl | rfl | rfl
-    · have hb' : b = false := by rw [hb]; decide
-      subst hb'
-      rw [doOp_call0 .sc (by decide)]; exact hcall
-    · have hb' : b = false := by rw [hb]; decide
-      subst hb'
-      rw [doOp_call0 .scn (by decide)]; exact hcall
-    · have hb' : b = true := by rw [hb]; decide
-      subst hb'
-      rw [doOp_call0 .SC (by decide)]; exact hcall
-    · have hb' : b = true := by rw [hb]; decide
-      subst hb'
-      rw [doOp_call0 .SCN (by decide)]; exact hcall
-  · simp only [stepS]
-    cases b
-    · exact { ctm := hs.ctm, gs := by simp [setColour, setCol, gsOf, hs.gs],
-              gstack := hs.gstack, path := hs.path, ok := hs.ok, out := hs.out, csmap := hs.csmap }
-    · exact { ctm := hs.ctm, gs := by simp [setColour, setCol, gsOf, hs.gs],
-              gstack := hs.gstack, path := hs.path, ok := hs.ok, out := hs.out, csmap := hs.csmap }
+  have hgs : (if b then st.gs.scs else st.gs.ncs) = (if b then ss.g.sspace else ss.g.nspace).n := by
+    rw [hs.gs]; cases b <;> simp [gsOf]
+  cases pat with
+  | none =>
+    have hx : (if b then ss.g.sspace else ss.g.nspace).n ≠ 0 ∧
+        xs.length = (if b then ss.g.sspace else ss.g.nspace).n := by
+      simpa [scOk, hnp] using hsc
+    refine ⟨setColour st b xs, ?_, ?_⟩
+    · have : tokens (.sc k b xs none) = (xs.map Operand.num).map Tok.operand ++ [.op k] := by
+        simp [tokens, nums_eq]
+      rw [this, exec_operands, exec_single, scKey k b hk hb]
+      exact setColourN_ok st b xs (by rw [hgs, hx.2]) (by rw [hx.2]; exact hx.1)
+    · simp only [stepS]
+      cases b
+      · exact { ctm := hs.ctm, gs := by simp [setColour, setCol, gsOf, hs.gs],
+                gstack := hs.gstack, path := hs.path, ok := hs.ok, out := hs.out, csmap := hs.csmap }
+      · exact { ctm := hs.ctm, gs := by simp [setColour, setCol, gsOf, hs.gs],
+                gstack := hs.gstack, path := hs.path, ok := hs.ok, out := hs.out, csmap := hs.csmap }
+  | some p =>
+    -- a name operand outside a Pattern space: the operator is ignored by both
+    have hx : (if b then ss.g.sspace else ss.g.nspace).n ≠ 0 ∧
+        xs.length + 1 = (if b then ss.g.sspace else ss.g.nspace).n := by
+      simpa [scOk, hnp] using hsc
+    have hargs : (xs.map Operand.num ++ [Operand.name p]).length = xs.length + 1 := by simp
+    refine ⟨st, ?_, ?_⟩
+    · have : tokens (.sc k b xs (some p)) =
+          (xs.map Operand.num ++ [Operand.name p]).map Tok.operand ++ [.op k] := by
+        simp [tokens, nums_eq]
+      rw [this, exec_operands, exec_single, scKey k b hk hb]
+      exact setColourN_ignored st b _ (by rw [hgs, hargs, hx.2]) (by rw [hargs]; omega) (allNums_snoc_name xs p)
+    · simp only [stepS, hnp, Bool.false_eq_true, if_false]
+      exact hs
+
+theorem sim_bad (cs : SpaceMap) (st : IState) (ss : SState) (hs : Sim cs st ss) (k : OpK) (args : List Operand)
+    (hok : opOk cs ss (.bad k args) = true) (hsup : supOk ss (.bad k args) = true) :
+    ∃ st', execute (tokens (.bad k args)) st = .ok st' ∧ Sim cs st' (stepS cs ss (.bad k args)) := by
+  refine ⟨st, ?_, hs⟩
+  simp only [opOk, badOk, Bool.and_eq_true, Option.isNone_iff_eq_none, beq_iff_eq] at hok
+  obtain ⟨hbad, har⟩ := hok
+  have hbad' : allNums args = none := hbad
+  have : tokens (.bad k args) = args.map Tok.operand ++ [.op k] := rfl
+  rw [this, exec_operands, exec_single]
+  have fixed : ∀ (n : Nat), n ≠ 0 → opNargs.lookup k.name = some n → args.length = n →
+      call k args st = .ok st →
+      doOp k { st with argstack := st.argstack ++ args } = .ok st := by
+    intro n hn hl hlen hc
+    rw [doOp_call k n hl hn st args hlen]
+    exact hc
+  have hw : ∀ x, args = [x] → safeFloat x = none := by
+    intro x hx
+    subst hx
+    cases h : safeFloat x with
+    | none => rfl
+    | some r => simp [allNums, h] at hbad'
+  have family : ∀ (b : Bool), [OpK.sc, .scn, .SC, .SCN].contains k = true → b = (k == .SC || k == .SCN) →
+      (if b then ss.g.sspace else ss.g.nspace).pattern = false →
+      args.length = (if b then ss.g.sspace else ss.g.nspace).n →
+      doOp k { st with argstack := st.argstack ++ args } = .ok st := by
+    intro b hk hb hnp hn
+    have hlen : args.length ≠ 0 := by
+      intro h0
+      have : args = [] := List.length_eq_zero_iff.1 h0
+      subst this
+      simp [allNums] at hbad'
+    have hgs : (if b then st.gs.scs else st.gs.ncs) = args.length := by
+      rw [hs.gs, hn]; cases b <;> simp [gsOf]
+    rw [scKey k b hk hb]
+    exact setColourN_ignored st b args hgs hlen hbad'
+  cases k
+  case w =>
+    simp only [numArity] at har
+    have h1 : args.length = 1 := (Option.some.inj har).symm
+    obtain ⟨x, rfl⟩ := List.length_eq_one_iff.1 h1
+    exact fixed 1 (by decide) (by decide) rfl (by simp [call, hw x rfl])
+  all_goals
+    simp only [numArity] at har
+    first
+      | (cases har; done)
+      | (exact fixed _ (by decide) (by decide) (Option.some.inj har).symm (by
+            simp [call, doDeviceColour, hbad']))
+      | (split at har
+         · cases har
+         · rename_i hnp
+           first
+             | exact family false (by decide) (by decide) (by simpa using hnp) (Option.some.inj har).symm
+             | exact family true (by decide) (by decide) (by simpa using hnp) (Option.some.inj har).symm)
 
 theorem sim_step (cs : SpaceMap) (hdev : devOk cs) (st : IState) (ss : SState) (hs : Sim cs st ss) (op : SOp)
-    (hok : opOk cs ss op = true) (hsup : supported op = true) :
+    (hok : opOk cs ss op = true) (hsup : supOk ss op = true) :
     ∃ st', execute (tokens op) st = .ok st' ∧ Sim cs st' (stepS cs ss op) := by
   cases op with
   | m p => exact sim_m cs st ss hs p
@@ -599,6 +689,7 @@ theorem sim_step (cs : SpaceMap) (hdev : devOk cs) (st : IState) (ss : SState) (
   | q => exact sim_q cs st ss hs
   | Q => exact sim_Q cs st ss hs
   | cm a b c d e f => exact sim_cm cs st ss hs a b c d e f
+  | bad k args => exact sim_bad cs st ss hs k args hok hsup
 
 theorem execute_append (a b : List Tok) (st st' : IState) (h : execute a st = .ok st') :
     execute (a ++ b) st = execute b st' := by
@@ -613,13 +704,13 @@ theorem execute_append (a b : List Tok) (st st' : IState) (h : execute a st = .o
 /-- Whole programs: the interpreter model run on the token stream of a well-formed, supported program
 stays in simulation with the specification run on the structured program. -/
 theorem sim_run (cs : SpaceMap) (hdev : devOk cs) (prog : List SOp) (st : IState) (ss : SState)
-    (hs : Sim cs st ss) (hwf : wf cs prog ss = true) (hsup : prog.all supported = true) :
+    (hs : Sim cs st ss) (hwf : wf cs prog ss = true) (hsup : supported cs prog ss = true) :
     ∃ st', execute (progTokens prog) st = .ok st' ∧ Sim cs st' (runS cs prog ss) := by
   induction prog generalizing st ss with
   | nil => exact ⟨st, rfl, hs⟩
   | cons op rest ih =>
     simp only [wf, Bool.and_eq_true] at hwf
-    simp only [List.all_cons, Bool.and_eq_true] at hsup
+    simp only [supported, Bool.and_eq_true] at hsup
     obtain ⟨st1, he, hs1⟩ := sim_step cs hdev st ss hs op hwf.1 hsup.1
     obtain ⟨st2, he2, hs2⟩ := ih st1 (stepS cs ss op) hs1 hwf.2 hsup.2
     refine ⟨st2, ?_, hs2⟩
